@@ -53,6 +53,12 @@ EDITS = [
     ("locals renamed in IntersectEdges", E, None, "old_e1_windcnt->prev_wc1"),
     ("hot test hoisted into a local in DoTopOfScanbeam", E, "          if (IsHotEdge(*e)) AddOutPt(*e, e->top);\n          UpdateEdgeIntoAEL(e);", "          const bool is_hot = IsHotEdge(*e);\n          if (is_hot) AddOutPt(*e, e->top);\n          UpdateEdgeIntoAEL(e);"),
     ("abs via std::llabs in the open toggle", E, "      if (abs(edge_c->wind_cnt) != 1) return;\n      switch (cliptype_)", "      if (std::abs(edge_c->wind_cnt) != 1) return;\n      switch (cliptype_)"),
+    ("RectClipLines: explicit false for start_new when leaving", R, "      else // path must be exiting rect\n      {\n        Add(ip);\n      }", "      else // path must be exiting rect\n      {\n        Add(ip, false);\n      }"),
+    ("GetLocation tests the vertical sides before the horizontal ones", R, "    else if (pt.x < rec.left) loc = Location::Left;\n    else if (pt.x > rec.right) loc = Location::Right;\n    else if (pt.y < rec.top) loc = Location::Top;\n    else if (pt.y > rec.bottom) loc = Location::Bottom;",
+     "    else if (pt.y < rec.top) loc = Location::Top;\n    else if (pt.y > rec.bottom) loc = Location::Bottom;\n    else if (pt.x < rec.left) loc = Location::Left;\n    else if (pt.x > rec.right) loc = Location::Right;"),
+    ("TrimCollinear tests against dst.back()", H + "clipper.h", "      if (!IsCollinear(*prevIt, *srcIt, *(srcIt + 1)))", "      if (!IsCollinear(dst.back(), *srcIt, *(srcIt + 1)))"),
+    ("Group: closedness flag renamed and made const", O, "\tbool is_joined =\n\t\t(end_type == EndType::Polygon) ||\n\t\t(end_type == EndType::Joined);\n\tfor (Path64& p: paths_in)\n\t  StripDuplicates(p, is_joined);", "\tconst bool paths_are_closed = (end_type == EndType::Joined) || (end_type == EndType::Polygon);\n\tfor (Path64& p: paths_in)\n\t  StripDuplicates(p, paths_are_closed);"),
+    ("Minkowski: closed sum computed with the shorter outline outside", H + "clipper.minkowski.h", "      if (patLen == 0 || pathLen == 0) return Paths64();\n", "      if (patLen == 0 || pathLen == 0) return Paths64();\n      if (isSum && isClosed && pathLen > patLen) return Minkowski(path, pattern, true, true);\n"),
     ("link writes of AddOutPt in another order", E, "    op_back->prev = new_op;\n    new_op->prev = op_front;\n    new_op->next = op_back;\n    op_front->next = new_op;", "    new_op->next = op_back;\n    new_op->prev = op_front;\n    op_front->next = new_op;\n    op_back->prev = new_op;"),
     ("DoSplitOp publishes the new ring after closing it", E, "      newOr->pts = newOp;\n      splitOp->prev = newOp;\n      splitOp->next->next = newOp;", "      splitOp->prev = newOp;\n      splitOp->next->next = newOp;\n      newOr->pts = newOp;"),
     ("JoinOutrecPaths: ends read through a helper local", E, "    OutPt* p1_end = p1_st->next;\n    OutPt* p2_end = p2_st->next;\n    if (IsFront(e1))", "    OutPt* p2_end = p2_st->next;\n    OutPt* p1_end = p1_st->next;\n    const bool e1_is_front = IsFront(e1);\n    if (e1_is_front)"),
